@@ -51,7 +51,7 @@ class EulerIntegrator:
 
     def __init__(self, a: str = None, default_value: int = 0):
         self._attribute = a
-        self._defaultValue = 0
+        self._defaultValue = default_value
 
     def metric(self, c: SimplicialComplex, s: Simplex):
         """Return the metric for the given simplex. The default reads the value
